@@ -877,6 +877,13 @@ func TestVerifC29Values(t *testing.T) {
 			gen(c29GenTop(r, pool, names, false), "Top")
 		}
 	}
+	// results handed out by earlier Marshal calls: the slice as returned, a private copy, the line
+	type c29Kept struct {
+		got, want []byte
+		line      int
+		name      string
+	}
+	var kept []c29Kept
 	for _, l := range lines {
 		f := verifh.Fields(l)
 		if len(f) < 3 || (f[0] != "val" && f[0] != "valout") {
@@ -936,6 +943,12 @@ func TestVerifC29Values(t *testing.T) {
 				}
 			}()
 			db, derr := Marshal(a, name, string(vjs))
+			if derr == nil {
+				kept = append(kept, c29Kept{db, append([]byte{}, db...), r.Line() + 1, name})
+				if len(kept) > 24 {
+					kept = kept[1:]
+				}
+			}
 			var dj string
 			var uerr error
 			if asOut {
@@ -962,6 +975,13 @@ func TestVerifC29Values(t *testing.T) {
 		r.Emit(l, out)
 		for _, x := range vs {
 			r.Violation(x.k, "%s", x.m)
+		}
+		// every earlier result must still be what it was when it was returned
+		for i := range kept {
+			if k := &kept[i]; k.line < r.Line() && !bytes.Equal(k.got, k.want) {
+				r.ViolationAt("marshal-result-aliased", k.line, r.Line(), "the bytes returned by Marshal(%s) at line %d were overwritten by a later call: was %x now %x", k.name, k.line, k.want, k.got)
+				k.want = append([]byte{}, k.got...) // report once
+			}
 		}
 		r.Count("val:" + out)
 		if out == "eq" {
